@@ -2,8 +2,13 @@ package props
 
 import (
 	"fmt"
+	"go/build/constraint"
 	"go/types"
+	"io/fs"
+	"os"
+	"path/filepath"
 	"sort"
+	"strings"
 
 	"golang.org/x/tools/go/ssa"
 
@@ -29,6 +34,19 @@ func C17(p *load.Prog, r *report.Report) {
 	r.Trusted = []string{"go/packages import graph = what the linker links", "crypto.RegisterHash/(crypto.Hash).New contract of the standard library", "go/ssa call resolution"}
 	c17One(p, r, "host")
 	c17Iface(p, r)
+	// build tags the module's own files are conditioned on (other than operating systems and architectures): the
+	// linkage rule must hold with each of them set, since the importing program chooses (-tags, -race)
+	tags := moduleBuildTags(p.Dir)
+	r.Analysed["module_build_tags"] = len(tags)
+	for _, t := range tags {
+		name := "tags=" + t
+		q, err := load.Load(p.Dir, "GOFLAGS=-mod=mod -tags="+t)
+		if err != nil {
+			r.Undecided("C17.load", name, "", err.Error())
+			continue
+		}
+		c17One(q, r, name)
+	}
 	if r.Tier == "thorough" {
 		for _, cfg := range c17Matrix {
 			name := fmt.Sprint(cfg)
@@ -40,6 +58,81 @@ func C17(p *load.Prog, r *report.Report) {
 			c17One(q, r, name)
 		}
 	}
+}
+
+// moduleBuildTags lists the custom tags named in //go:build lines of the module's non-test files.
+func moduleBuildTags(dir string) []string {
+	known := map[string]bool{"cgo": true, "gc": true, "gccgo": true, "ignore": true, "unix": true, "purego_off": true}
+	for _, x := range strings.Fields("aix android darwin dragonfly freebsd hurd illumos ios js linux nacl netbsd openbsd plan9 solaris wasip1 windows zos 386 amd64 amd64p32 arm armbe arm64 arm64be loong64 mips mipsle mips64 mips64le mips64p32 mips64p32le ppc ppc64 ppc64le riscv riscv64 s390 s390x sparc sparc64 wasm") {
+		known[x] = true
+	}
+	seen := map[string]bool{}
+	filepath.WalkDir(dir, func(path string, d fs.DirEntry, err error) error {
+		if err != nil {
+			return nil
+		}
+		if d.IsDir() {
+			if n := d.Name(); path != dir && (strings.HasPrefix(n, ".") || n == "testdata" || n == "vendor") {
+				return filepath.SkipDir
+			}
+			return nil
+		}
+		if !strings.HasSuffix(path, ".go") || strings.HasSuffix(path, "_test.go") {
+			return nil
+		}
+		data, err := os.ReadFile(path)
+		if err != nil {
+			return nil
+		}
+		for _, line := range strings.Split(string(data), "\n") {
+			line = strings.TrimSpace(line)
+			if strings.HasPrefix(line, "package ") {
+				break
+			}
+			if !strings.HasPrefix(line, "//go:build ") {
+				continue
+			}
+			expr, err := constraint.Parse(line)
+			if err != nil {
+				continue
+			}
+			expr.Eval(func(tag string) bool {
+				if !known[tag] && !strings.HasPrefix(tag, "go1.") {
+					seen[tag] = true
+				}
+				return false
+			})
+			// Eval short-circuits: walk all tags
+			var walk func(e constraint.Expr)
+			walk = func(e constraint.Expr) {
+				switch x := e.(type) {
+				case *constraint.TagExpr:
+					if !known[x.Tag] && !strings.HasPrefix(x.Tag, "go1.") {
+						seen[x.Tag] = true
+					}
+				case *constraint.NotExpr:
+					walk(x.X)
+				case *constraint.AndExpr:
+					walk(x.X)
+					walk(x.Y)
+				case *constraint.OrExpr:
+					walk(x.X)
+					walk(x.Y)
+				}
+			}
+			walk(expr)
+		}
+		return nil
+	})
+	var out []string
+	for t := range seen {
+		out = append(out, t)
+	}
+	sort.Strings(out)
+	if len(out) > 6 {
+		out = out[:6]
+	}
+	return out
 }
 
 // c17Iface: a hash obtained from the registry may be any registered implementation; the code must use it
